@@ -38,6 +38,10 @@ fn main() {
     let mut out = NdWriter::create(&args[2]);
     let static_schema = fam::schema();
     let dyn_default: Option<J> = args.get(3).map(|p| serde_json::from_str(&std::fs::read_to_string(p).unwrap()).unwrap());
+    if let Some(m) = &dyn_default {
+        let diffs = vh::mirror::check(&static_schema, m);
+        if !diffs.is_empty() { tool_error(&format!("schema mirror {} does not match the compiled static family: {:?}", args[3], diffs)); }
+    }
     let mut n = 0usize;
     for mut case in cases {
         let mut d = case["doc"].clone();
